@@ -174,5 +174,31 @@ int main(int argc, char **argv)
             if(need != expect.size()) vp::violation("null-buffer-size|rtosc_amessage|" + shape, cid, "reports " + std::to_string(need) + ", encoding has " + std::to_string(expect.size()));
         }
     }
+    // many arguments through the va_list path (the argument array of rtosc_vmessage lives on its stack) and through rtosc_amessage
+    {
+        vp::bound("many_arguments", "64,129,256,257,300,500 arguments (all i / alternating i,s,T / alternating h,f), every capacity 0..needed+8");
+        for(int n : {64, 129, 256, 257, 300, 500}) for(int mix = 0; mix < 3; ++mix, ++top) {
+            if(!vp::mine(top)) continue;
+            std::string cid = "many|n" + std::to_string(n) + "|mix" + std::to_string(mix);
+            if(!vp::want(cid)) continue;
+            vp::current_case() = cid;
+            std::string ts; std::vector<ref::Arg> args;
+            for(int k = 0; k < n; ++k) {
+                char t = mix == 0 ? 'i' : mix == 1 ? "isT"[k % 3] : "hf"[k % 2];
+                ts += t; if(!ref::has_data(t)) continue;
+                ref::Arg a; a.type = t; if(t == 's') a.s = k % 2 ? "ab" : "abcd"; else if(t == 'h') a.u64 = 0x0102030405060708ull + k; else a.u32 = 0x3f800000u + (uint32_t)k;
+                args.push_back(a);
+            }
+            std::string addr = "/m", expect = ref::encode(addr, ts, args);
+            vp::state(); vp::eval(); vp::nontrivial(vp::fnv(expect) ^ 4); vp::trace();
+            std::vector<rtosc_arg_t> ra; for(auto &a : args) ra.push_back(gen::to_rtosc(a));
+            all_caps("rtosc_amessage", [&](char *b, size_t len) { return rtosc_amessage(b, len, addr.c_str(), ts.c_str(), ra.data()); }, expect, cid, "many-arguments");
+            static CArg c[512]; bool snan; int nc = flatten(ts, args, c, snan);
+            all_caps("rtosc_vmessage", [&](char *b, size_t len) { return call_valist(b, len, addr.c_str(), ts.c_str(), c, nc); }, expect, cid, "many-arguments");
+            vp::transition();
+            size_t need = call_valist(nullptr, 0, addr.c_str(), ts.c_str(), c, nc);
+            if(need != expect.size()) vp::violation("null-buffer-size|rtosc_vmessage|many-arguments", cid, "reports " + std::to_string(need) + ", encoding has " + std::to_string(expect.size()));
+        }
+    }
     return vp::finish();
 }
